@@ -90,6 +90,7 @@ const (
 	kDeleteRange
 	kCreateSession
 	kCloseSession
+	kBulk
 )
 
 type opDef struct {
@@ -98,6 +99,7 @@ type opDef struct {
 	set        []int // indices into allEntries
 	start, end string
 	internal   bool // the range spans internal keys
+	bulk       []bulkRec
 	name       string
 }
 
@@ -136,11 +138,121 @@ type config struct {
 	depth         int
 	ops           []opDef
 	// query universe (zero values: the standard one)
-	indexes     []string // index names queried after every step
-	pks         []string
-	probes      []string // keys of the comparison gets (the empty one is skipped)
-	rangeProbes []string // bounds of List / RangeScan
-	allPairs    bool     // every (start,end) pair, inverted ones included
+	indexes      []string // index names queried after every step
+	pks          []string
+	probes       []string // keys of the comparison gets (the empty one is skipped)
+	rangeProbes  []string // bounds of List / RangeScan
+	allPairs     bool     // every (start,end) pair, inverted ones included
+	orderedPairs bool     // only pairs with start <= end, in every tier
+}
+
+// ---------------------------------------------------------------------------------------------
+// "bulk" configurations: more records than kv.DeleteRangeThreshold, then range deletes around the threshold.
+// applyDeleteRange visits every record of the range (the visit removes its index entries) and switches from
+// per-key deletes to one range tombstone above the threshold; a range that spans the internal `__oxia/` block is
+// applied as two ranges (below / above the block), each with its own count.
+
+type bulkRec struct {
+	pk  string
+	set []int
+}
+
+const thr = kv.DeleteRangeThreshold
+
+func flatKey(n int) string   { return fmt.Sprintf("k%03d", n) }  // no '/': sorts below the internal block
+func nestedKey(n int) string { return fmt.Sprintf("k/%03d", n) } // "k" > "__oxia": sorts above the internal block
+
+// declared entries: flat record n: none when n%7==0, {i:s<n>, j:t<n>} when n%3==0, else {i:s<n>};
+// nested record n: none when n%5==0, else {i:u<n>} plus {j:t/<n>} (nested secondary key) when n%4==0.
+func flatSet(n int) []int {
+	switch {
+	case n%7 == 0:
+		return []int{}
+	case n%3 == 0:
+		return []int{entryIdx("i", fmt.Sprintf("s%03d", n)), entryIdx("j", fmt.Sprintf("t%03d", n))}
+	}
+	return []int{entryIdx("i", fmt.Sprintf("s%03d", n))}
+}
+
+func nestedSet(n int) []int {
+	switch {
+	case n%5 == 0:
+		return []int{}
+	case n%4 == 0:
+		return []int{entryIdx("i", fmt.Sprintf("u%03d", n)), entryIdx("j", fmt.Sprintf("t/%03d", n))}
+	}
+	return []int{entryIdx("i", fmt.Sprintf("u%03d", n))}
+}
+
+func bulkOp(nFlat, nNested int) opDef {
+	o := opDef{kind: kBulk, name: fmt.Sprintf("Bulk(%d flat k001.., %d nested k/001.., one write request)", nFlat, nNested)}
+	for n := 1; n <= nFlat; n++ {
+		o.bulk = append(o.bulk, bulkRec{flatKey(n), flatSet(n)})
+	}
+	for n := 1; n <= nNested; n++ {
+		o.bulk = append(o.bulk, bulkRec{nestedKey(n), nestedSet(n)})
+	}
+	return o
+}
+
+// bulkConfig: first step = one of the bulk layouts (only enabled on the empty DB), then range deletes that cover
+// exactly the threshold, threshold+1, everything on one side / on both sides of the internal block, sub-ranges that
+// start and end in the middle, a small range; single puts that re-create (or overwrite) records at the boundaries
+// with the same / another / no entry; single deletes.
+func bulkConfig(name string, notifications bool, depth int, layouts [][2]int, full bool) config {
+	maxFlat, maxNested := 0, 0
+	var ops []opDef
+	for _, l := range layouts {
+		ops = append(ops, bulkOp(l[0], l[1]))
+		maxFlat, maxNested = max(maxFlat, l[0]), max(maxNested, l[1])
+	}
+	ranges := [][2]string{
+		{flatKey(1), flatKey(thr + 1)},   // exactly the threshold
+		{flatKey(1), flatKey(thr + 2)},   // threshold+1
+		{"k", "l"},                       // every flat record
+		{"k", "k/~"},                     // everything, spans the internal block
+		{flatKey(20), flatKey(thr + 25)}, // starts and ends in the middle (threshold+5 records of the largest flat layout)
+		{flatKey(31), nestedKey(41)},     // middle of the flat records .. middle of the nested ones, spans the internal block
+	}
+	if full {
+		ranges = append(ranges, [2]string{"k/", "k/~"}, [2]string{flatKey(50), flatKey(60)}, [2]string{flatKey(2), flatKey(thr + 2)})
+	}
+	for _, r := range ranges {
+		ops = append(ops, opDef{kind: kDeleteRange, start: r[0], end: r[1], name: fmt.Sprintf("DeleteRange[%s,%s)", r[0], r[1]),
+			internal: inRange("__oxia/idx/i/a\x01p", r[0], r[1])})
+	}
+	type sp struct {
+		pk  string
+		set []int
+	}
+	singles := []sp{
+		{flatKey(thr + 1), flatSet(thr + 1)},             // the 101st record again, same entry
+		{flatKey(thr + 1), []int{entryIdx("j", "t000")}}, // ... with an entry in the other index instead
+		{flatKey(1), []int{}},                            // first record, no entry
+		{nestedKey(1), nestedSet(1)},                     // first nested record again
+	}
+	if full {
+		singles = append(singles, sp{flatKey(thr + 30), []int{entryIdx("i", "s000")}}, sp{flatKey(thr), flatSet(thr)},
+			sp{nestedKey(41), []int{entryIdx("i", "u999"), entryIdx("j", "t/000")}})
+	}
+	pkSet := map[string]bool{}
+	for _, x := range singles {
+		ops = append(ops, opDef{kind: kPut, pk: x.pk, set: x.set, name: fmt.Sprintf("Put(%s,%s)", x.pk, setName(x.set))})
+		pkSet[x.pk] = true
+	}
+	for _, pk := range []string{flatKey(thr + 1), nestedKey(1)} {
+		ops = append(ops, opDef{kind: kDelete, pk: pk, name: fmt.Sprintf("Delete(%s)", pk)})
+	}
+	var pks []string
+	for n := 1; n <= max(maxFlat, thr+30); n++ {
+		pks = append(pks, flatKey(n))
+	}
+	for n := 1; n <= max(maxNested, 41); n++ {
+		pks = append(pks, nestedKey(n))
+	}
+	return config{name: name, notifications: notifications, depth: depth, ops: ops, indexes: stdIndexes, pks: pks, orderedPairs: true,
+		probes:      []string{"", "s000", "s001", "s100", "s101", "s102", "s131", "t102", "u040", "u071", "t/004", "t/999"},
+		rangeProbes: []string{"", "s001", "s101", "s102", "t", "u041", "v", "t/", "t/~"}}
 }
 
 func (c *config) fill() {
@@ -252,6 +364,8 @@ func configList(tier string) []config {
 			nameConfig("thorough/index-names/notifications-on", true, 2, []string{"p", "p%2Fq"}, thoroughNames, true),
 			slashConfig("thorough/slash-names/notifications-off", false, 3),
 			slashConfig("thorough/slash-names/notifications-on", true, 3),
+			bulkConfig("thorough/bulk/notifications-on", true, 4, [][2]int{{thr, 0}, {thr + 1, 0}, {thr + 30, 0}, {60, 70}, {thr + 5, thr + 5}}, true),
+			bulkConfig("thorough/bulk/notifications-off", false, 3, [][2]int{{thr, 0}, {thr + 1, 0}, {thr + 30, 0}, {60, 70}, {thr + 5, thr + 5}}, true),
 			{name: "thorough/sessions/6-sets", notifications: true, depth: 5, ops: buildOps(sessSets, [][]int{{3}, {0, 5}, {2}})},
 			{name: "thorough/notifications-off/all-sets", notifications: false, depth: 3, ops: buildOps(allSets(), nil)},
 			{name: "thorough/notifications-on/all-sets", notifications: true, depth: 3, ops: buildOps(allSets(), nil)},
@@ -265,6 +379,7 @@ func configList(tier string) []config {
 		nameConfig("quick/index-names/notifications-off", false, 2, []string{"p", "p/q"}, quickNames, false),
 		nameConfig("quick/index-names/notifications-on", true, 2, []string{"p", "p%2Fq"}, quickNames, false),
 		slashConfig("quick/slash-names/notifications-off", false, 2),
+		bulkConfig("quick/bulk/notifications-on", true, 3, [][2]int{{thr, 0}, {thr + 1, 0}, {thr + 30, 0}, {60, 70}, {thr + 5, thr + 5}}, true),
 		{name: "quick/notifications-on/reduced-sets", notifications: true, depth: 3, ops: buildOps(reducedSets(), nil)},
 		{name: "quick/notifications-off/7-sets", depth: 3, ops: buildOps([][]int{{}, {0}, {1}, {2}, {3}, {5}, {0, 3}}, nil)},
 		{name: "quick/sessions/small-sets", notifications: true, depth: 4, ops: buildOps([][]int{{}, {0}, {4}, {2, 3}}, [][]int{{3}, {0, 5}})},
@@ -434,18 +549,19 @@ type rec struct {
 }
 
 type inst struct {
-	cfg   *config
-	dir   string
-	lc    server.LeaderController
-	kvf   *oxh.CapFactory
-	oc    *openCount
-	walf  wal.Factory
-	recs  map[string]*rec
-	sess  int64 // open session or -1
-	nsess int
-	step  int
-	hist  []int
-	raw   []string // raw idx keys seen at the last step
+	cfg        *config
+	dir        string
+	lc         server.LeaderController
+	kvf        *oxh.CapFactory
+	oc         *openCount
+	walf       wal.Factory
+	recs       map[string]*rec
+	sess       int64 // open session or -1
+	nsess      int
+	step       int
+	hist       []int
+	raw        []string // raw idx keys seen at the last step
+	rangeCount int      // records the last range delete covered (model)
 }
 
 var dirCounter atomic.Int64
@@ -517,6 +633,26 @@ func (in *inst) Step(op int) (bool, *ev.Violation) {
 			return true, viol("write-status:put", fmt.Sprintf("%s returned %v", o.name, res.Puts[0].Status))
 		}
 		in.recs[o.pk] = &rec{set: o.set, val: val, ver: res.Puts[0].Version.VersionId, mod: res.Puts[0].Version.ModificationsCount, sess: sess}
+	case kBulk:
+		if in.step != 0 {
+			return false, nil // only on the empty DB
+		}
+		in.step++
+		val := fmt.Sprintf("v%d", in.step)
+		var puts []*proto.PutRequest
+		for _, b := range o.bulk {
+			puts = append(puts, &proto.PutRequest{Key: b.pk, Value: []byte(val), SecondaryIndexes: secIdx(b.set)})
+		}
+		res, err := in.write(&proto.WriteRequest{Puts: puts})
+		if err != nil {
+			return true, viol("write-error:bulk-put", fmt.Sprintf("%s failed: %v", o.name, err))
+		}
+		for n, b := range o.bulk {
+			if res.Puts[n].Status != proto.Status_OK {
+				return true, viol("write-status:bulk-put", fmt.Sprintf("%s: put %s returned %v", o.name, b.pk, res.Puts[n].Status))
+			}
+			in.recs[b.pk] = &rec{set: b.set, val: val, ver: res.Puts[n].Version.VersionId, mod: res.Puts[n].Version.ModificationsCount, sess: -1}
+		}
 	case kDelete:
 		if in.recs[o.pk] == nil {
 			return false, nil
@@ -546,9 +682,11 @@ func (in *inst) Step(op int) (bool, *ev.Violation) {
 		if res.DeleteRanges[0].Status != proto.Status_OK {
 			return true, viol("write-status:delete-range", fmt.Sprintf("%s returned %v", o.name, res.DeleteRanges[0].Status))
 		}
+		in.rangeCount = 0
 		for pk := range in.recs {
 			if inRange(pk, o.start, o.end) {
 				delete(in.recs, pk)
+				in.rangeCount++
 			}
 		}
 	case kCreateSession:
@@ -578,11 +716,10 @@ func (in *inst) Step(op int) (bool, *ev.Violation) {
 		in.sess = -1
 	}
 	in.hist = append(in.hist, op)
-	if v := in.checkRaw(o); v != nil {
-		return true, v
-	}
+	// the queries are evaluated on a state whose raw index is wrong as well: their answers show the symptom
+	v := in.checkRaw(o)
 	in.checkQueries()
-	return true, nil
+	return true, v
 }
 
 // ---------------------------------------------------------------------------------------------
@@ -737,6 +874,9 @@ func (in *inst) checkRaw(o opDef) *ev.Violation {
 			key += "missing-entries"
 		}
 		key += ":after-" + kindName(o)
+		if o.kind == kDeleteRange && in.rangeCount > thr {
+			key += "-of-more-than-threshold-records"
+		}
 		return viol(key, fmt.Sprintf("after %s: raw index entries %s, live records declare %s (stale=%v missing=%v)", o.name, fmtTriples(got), fmtTriples(want), stale, missing))
 	}
 	return nil
@@ -757,6 +897,8 @@ func kindName(o opDef) string {
 		return "delete-range"
 	case kCreateSession:
 		return "session-create"
+	case kBulk:
+		return "bulk-put"
 	}
 	return "session-close"
 }
@@ -870,6 +1012,9 @@ func (in *inst) checkQueries() {
 		// ---- list and range scan over every (start,end) pair
 		for _, st := range in.cfg.rangeProbes {
 			for _, en := range in.cfg.rangeProbes {
+				if in.cfg.orderedPairs && slashCmp(st, en) > 0 {
+					continue
+				}
 				if !thoroughTier && !in.cfg.allPairs && slashCmp(st, en) > 0 && !invertedQuick[[2]string{st, en}] {
 					continue // quick tier: only three of the inverted (start > end) ranges
 				}
